@@ -477,7 +477,9 @@ def coq_run_big(ctx, name, text, timeout=900):
     path = os.path.join(ctx.work, name + ".v")
     with open(path, "w") as f:
         f.write(text)
-    cmd = "ulimit -s 4000000 2>/dev/null || ulimit -s unlimited; exec coqc -noglob -R %s V -w -notation-overridden %s" % (vlib.COQ, path)
+    if len(text) > vlib.COQ_CASE_FILE_LIMIT:
+        return 97, "[case file of %d bytes exceeds the limit: not evaluated]" % len(text)
+    cmd = "ulimit -v %d; ulimit -s 4000000 2>/dev/null || ulimit -s unlimited; exec coqc -noglob -R %s V -w -notation-overridden %s" % (vlib.COQ_RUN_MEM_KB, vlib.COQ, path)
     return vlib.sh(["bash", "-c", cmd], cwd=ctx.work, timeout=timeout)
 
 
@@ -488,6 +490,12 @@ def correspond(ctx, tag, cases, results, budget_bytes=250000):
             if r is not None and r.get("co") in OUTCODE and r.get("co") not in ("timeout", "oom")
             and r.get("so") in OUTCODE and c.get("order", "cs") == "cs"]
     bad = []
+    # an observed result out of all proportion to its input (a mutated tree can emit millions of elements for a
+    # hundred bytes) is a difference by itself: the model's output is bounded by its input (C02_kafka)
+    huge = [i for i, c, r in todo if len(json.dumps(r)) > 2000000 + 400 * (len(c["c"]) + len(c["s"]))]
+    if huge:
+        bad += huge
+        todo = [t for t in todo if t[0] not in set(huge)]
     k = 0
     fileno = 0
     while k < len(todo):
